@@ -340,7 +340,7 @@ def obligations(tier):
          assumes=('jax.vmap and flax.core.axes_scan.scan replaced by numpy '
                   'slice / call / stack reference loops; lift.random.split stubbed',)),
       Ob('nnx_transform_metadata', CL.nnx_transform_metadata,
-         dict(tr=I(0, 1), ka=I(0, 3), other=B(), order=B(), oa=I(0, 0)),
+         dict(tr=I(0, 1), ka=I(0, 3), other=B(), order=B(), oa=I(0, 2)),
          split=('tr', 'ka'), timeout=300,
          funcs=qualnames(CL.C08.IT._update_variable_sharding_metadata,
                          CL.C08.IT.VmapFn.__call__, CL.C08.IT.ScanFn.__call__,
